@@ -469,6 +469,7 @@ pub fn main() {
     let mut samples: Vec<Value> = vec![];
     let mut distinct = HashSet::new();
     let mut sites = BTreeMap::<String, usize>::new();
+    let mut branches = BTreeMap::<String, usize>::new();
     let mut traces: Vec<Value> = vec![];
 
     let mut record = |case: &Case, o: &Outcome, total: &mut usize| {
@@ -481,6 +482,30 @@ pub fn main() {
             *sites.entry(s.clone()).or_default() += 1;
         }
         distinct.insert(format!("{:?}{:?}", case.senders, o.executed));
+        // branch families actually executed: the context of the shared decr_empty_channels regions, API results
+        let mut last_lock: HashMap<&str, &str> = HashMap::new();
+        for (p, l) in &o.executed {
+            if l.ends_with("_lock") {
+                last_lock.insert(p.as_str(), l.as_str());
+            }
+            if l == "decr" || l == "decr_gate" {
+                let ctxt = match last_lock.get(p.as_str()).copied().unwrap_or("") {
+                    "x_lock" => "receiver_drop",
+                    "d_lock" => "sender_drop",
+                    _ => "send",
+                };
+                *branches.entry(format!("{l}_in_{ctxt}")).or_default() += 1;
+            }
+        }
+        for (_, w, _) in &o.hist {
+            if w == "send_err" || w == "none" || w == "send_ok" || w == "got" {
+                *branches.entry(format!("api_{w}")).or_default() += 1;
+            }
+        }
+        if case.pa { *branches.entry("partition_aware_channels".into()).or_default() += 1; }
+        if case.nin > 1 { *branches.entry("several_gates".into()).or_default() += 1; }
+        *branches.entry(format!("channels_{}", case.nch)).or_default() += 1;
+        *branches.entry(format!("max_handles_per_channel_{}", case.senders.iter().flatten().max().copied().unwrap_or(0))).or_default() += 1;
         if let Some(e) = &o.tool_error {
             tool_errors.push(e.clone());
         }
@@ -544,7 +569,7 @@ pub fn main() {
     let res = json!({
         "evaluations": total, "completed_ok": completed, "distinct_schedules": distinct.len(), "steps": steps_total, "drift_steps": drift_total,
         "pending_returns": parked_total, "gate_parks": gate_parks,
-        "violations": violations, "samples": samples, "sites": sites, "tool_errors": tool_errors,
+        "violations": violations, "samples": samples, "sites": sites, "branches": branches, "tool_errors": tool_errors,
     });
     std::fs::write(&out_path, serde_json::to_string(&res).unwrap()).unwrap();
     if let Some(p) = util::arg("--traces") {
